@@ -76,6 +76,16 @@ Theorem C20_checksum_missing : forall ls asset,
 Proof. exact find_checksum_none. Qed.
 Print Assumptions C20_checksum_missing.
 
+(* what "the name field of a line" is: everything after the digest, the blanks and an optional '*', up to the end of the
+   line but for trailing blanks - so a line listing "<asset> (1)" or "<asset> old" is not a line for the asset *)
+Theorem C20_the_listed_name_is_the_whole_rest_of_the_line : forall l h n,
+  line_entry l = Some (h, n) ->
+  exists sp1 sp2 st sp3,
+    l = sp1 ++ h ++ sp2 ++ st ++ n ++ sp3 /\ blanks sp1 /\ blanks sp2 /\ sp2 <> [] /\ blanks sp3 /\
+    (st = [] \/ st = ["*"%char]) /\ h <> [] /\ n <> [] /\ forallb (fun c => negb (is_space c)) h = true.
+Proof. exact line_entry_shape. Qed.
+Print Assumptions C20_the_listed_name_is_the_whole_rest_of_the_line.
+
 (* an archive is installed only after it was verified against the digest listed for exactly its name: with no
    checksums.txt, or no line for the asset, or a different digest, --update stops *)
 Theorem C20_install_only_after_verification_against_the_listed_digest : forall content asset actual,
@@ -123,6 +133,12 @@ Example ex_checksum :
   parse_checksum (s ("aaa  bloch-v1-Linux-X64.tar.gz.sig" ++ String (ascii_of_nat 10) "bbb *bloch-v1-Linux-X64.tar.gz"))
                  (s "bloch-v1-Linux-X64.tar.gz") = Some (s "bbb").
 Proof. vm_compute. reflexivity. Qed.
+Example ex_checksum_other_file :
+  parse_checksum (s ("aaa  bloch-v1-Linux-X64.tar.gz (1)" ++ String (ascii_of_nat 10) "bbb  bloch-v1-Linux-X64.tar.gz old"))
+                 (s "bloch-v1-Linux-X64.tar.gz") = None /\
+  parse_checksum (s ("aaa  bloch-v1-Linux-X64.tar.gz (1)" ++ String (ascii_of_nat 10) ("bbb  bloch-v1-Linux-X64.tar.gz" ++ String (ascii_of_nat 13) "")))
+                 (s "bloch-v1-Linux-X64.tar.gz") = Some (s "bbb").
+Proof. vm_compute. split; reflexivity. Qed.
 Example ex_history :
   let inv t := {| now := t; skip_env := false; writable := true; curv := s "1.0.0"; fetch := Some (s "1.1.0") |} in
   fst (run_invocations None [inv 1700000000; inv 1700002000; inv (1700000000 + WINDOW); inv (1700000001 + WINDOW)]) = [1700000000; 1700000000 + WINDOW].
